@@ -19,9 +19,17 @@ Conventions of the statements
   (0 for NaN, ±2^31 saturation for ±∞ / ±1e300).  `fin = false` (a non-finite reference) is
   rejected by the repaired code before anything else happens.
 * `F : FloatOps` (`sqrt`, `atan2`) is arbitrary: nothing below depends on what these return.
-* A record's numbers are integers and exact rationals — `latitude = latE7·10⁻⁷`,
-  `vertical_speed = vs10/10`, … — so "finite" is expressed by the explicit bounds of
-  `record_bounds` (no division by zero: `trackDivisor_pos`).  IEEE rounding is outside (DESIGN §8).
+* What "every number in a record is finite and the track lies in [0, 360)" becomes here (audit-c H5):
+  - the INTEGER fields are bounded (`record_bounds`): `latitude = latE7·10⁻⁷`, `vertical_speed = vs10/10`,
+    … are exact integers times a decimal scale, so their `f64` values are finite;
+  - the TRACK range is proved in EXACT arithmetic (ℚ), for arbitrary results of `sqrt`/`atan2`
+    (`track_range`); there the corner arm `if track >= 360. { 0. }` is dead code
+    (`wrap_arm_dead_exact`), and `wrap_rounded_range` / `wrap_rounded_needs_arm` show on a
+    `rem_euclid` with its one rounding made explicit why the arm is needed in `f64`;
+  - `groundspeed` and `track` are `Rat`s in the model: their FINITENESS as `f64` (no NaN/∞ out of
+    `sqrt`, `atan2`, the divisions) holds by typing only and is NOT a theorem; it, and the `360.0`
+    corner of the real `rem_euclid`, are checked by the harness on the real code only
+    (no division by zero: `trackDivisor_pos`).  IEEE rounding is outside (DESIGN §8).
 * One quantisation step is 128 units of 1e-7 degree.  The decodable window, read off the code
   (19 / 20 transmitted bits, references shifted right by 7), is
   `-2^18 ≤ ⌊q/128⌋ − ⌊r/128⌋ < 2^18` for latitude and `± 2^19` for longitude, `q` the true and `r`
@@ -99,9 +107,11 @@ theorem short_input_err (F : FloatOps) (ts : Nat) (fin : Bool) (roundLat roundLo
   | err e => exact ⟨e, rfl⟩
   | panic s => exact absurd h (flarm_ne_panic F ts fin roundLat roundLon hlat hlon msg s)
 
-/-! ### every number of a record is finite; the track lies in [0, 360) -/
+/-! ### integer fields bounded; the track lies in [0, 360) in exact arithmetic
 
-/-- **track ∈ [0, 360)** for every record (repaired code; `unrepaired_track_leaves_range` in
+(f64 finiteness of `groundspeed` / `track` and the `rem_euclid` 360.0 corner: harness only.) -/
+
+/-- **track ∈ [0, 360)** for every record, on exact rationals (repaired code; `unrepaired_track_leaves_range` in
     Proofs/FlarmTrack.lean shows that `track4 − turning_rate` alone does not have this range). -/
 theorem track_range (F : FloatOps) (ts : Nat) (fin : Bool) (roundLat roundLon : Int)
     (hlat : I32 roundLat) (hlon : I32 roundLon) (msg : List Nat) (r : Record)
@@ -110,6 +120,33 @@ theorem track_range (F : FloatOps) (ts : Nat) (fin : Bool) (roundLat roundLon : 
   obtain ⟨_, _, icao24, isIcao, w0, w1, w2, w3, w4, m, _, _, rfl⟩ :=
     record_shape F ts fin roundLat roundLon hlat hlon msg r h
   exact wrapTrack_range _ _
+
+/-- In exact arithmetic the corner arm `if track >= 360. { 0. }` is never taken — the last
+    `rem_euclid` is already `< 360` — so `track_range` does not rely on it, for ANY two angles
+    `track4`, `track8` — in particular whatever angle `atan2(..)/0.01745` (about (−180.04, 180.04]) and
+    the first `rem_euclid` produce. -/
+theorem wrap_arm_dead_exact (t4 t8 : Rat) :
+    wrapTrack t4 t8 =
+        remEuclid (t4 - (EXTRAP_MUL : Rat) * turningRate t4 t8 / (EXTRAP_DIV : Rat)) 360 ∧
+      0 ≤ remEuclid (t4 - (EXTRAP_MUL : Rat) * turningRate t4 t8 / (EXTRAP_DIV : Rat)) 360 ∧
+      remEuclid (t4 - (EXTRAP_MUL : Rat) * turningRate t4 t8 / (EXTRAP_DIV : Rat)) 360 < 360 :=
+  ⟨wrapTrack_arm_dead t4 t8, remEuclid_range _ 360 (by decide)⟩
+
+/-- Why the arm exists: `f64::rem_euclid` is `let r = self % rhs; if r < 0.0 { r + rhs } else { r }`
+    with a ROUNDED addition.  For every monotone rounding `rnd` that fixes 0 and 360 the rounded
+    `rem_euclid` lands in the closed `[0, 360]`, and with the arm the result is in `[0, 360)`. -/
+theorem wrap_rounded_range (rnd : Rat → Rat) (hmono : ∀ a b, a ≤ b → rnd a ≤ rnd b)
+    (h0 : rnd 0 = 0) (h360 : rnd 360 = 360) (t : Rat) :
+    (0 ≤ remEuclidR rnd t 360 ∧ remEuclidR rnd t 360 ≤ 360) ∧ (0 ≤ wrapR rnd t ∧ wrapR rnd t < 360) :=
+  ⟨remEuclidR_range rnd hmono t 360 (by decide) h0 h360, wrapR_range rnd hmono h0 h360 t⟩
+
+/-- … and the arm is needed there: a monotone rounding fixing 0 and 360 under which the rounded
+    `rem_euclid` of a small negative angle is exactly 360 (what `f64` does for `-1e-14`). -/
+theorem wrap_rounded_needs_arm :
+    ∃ rnd : Rat → Rat, (∀ a b, a ≤ b → rnd a ≤ rnd b) ∧ rnd 0 = 0 ∧ rnd 360 = 360 ∧
+      ∃ t, remEuclidR rnd t 360 = 360 ∧ wrapR rnd t = 0 :=
+  ⟨coarse, coarse_mono, remEuclidR_reaches_corner.1, remEuclidR_reaches_corner.2.1,
+    -1 / 2, remEuclidR_reaches_corner.2.2⟩
 
 /-- the integers behind a record's numbers are bounded (so the `f64` values computed from them
     are finite): positions are `i32`, the vertical speed is a signed byte times 0..3, … -/
